@@ -164,7 +164,8 @@ func c16Perms(n int) [][]int {
 // gridMembers generates the family at one of three levels:
 //
 //	"leaf"  — per service: one credential expiring 1 s before the presentation at every position, the others long after;
-//	"state" — what is offered in every (non-leaf) BFS state;
+//	"state" — adds every assignment of {absent, 1 s before, long after} to the positions and the members just outside
+//	          the other bounds (offered in the shallow BFS states);
 //	"full"  — the products run by the grid part.
 func (e *c16Env) gridMembers(level string) []c16GReg {
 	var out []c16GReg
@@ -220,17 +221,31 @@ func (e *c16Env) gridMembers(level string) []c16GReg {
 				add(mk(svc, kinds, exps, o))
 			}
 		}
+		if level == "state" {
+			// the presentation's own instants just outside their bounds, one surplus credential, one credential left out
+			for _, vv := range [][2]string{{"max+1", ""}, {"", "now+1"}} {
+				g := mk(svc, kinds, allAfter, ident(n))
+				g.VPExp, g.VPNbf = vv[0], vv[1]
+				add(g)
+			}
+			g := mk(svc, kinds, allAfter, ident(n))
+			g.Creds = append(g.Creds, c16GCred{Kind: "OtherCredential", Exp: "none"})
+			add(g)
+			if n > 1 {
+				g := mk(svc, kinds, allAfter, ident(n))
+				g.Creds = g.Creds[1:]
+				add(g)
+			}
+			continue
+		}
 		// (c) the remaining expiry kinds one position at a time
 		for i := 0; i < n; i++ {
 			for _, k := range []string{"far-before", "equal", "after1", "expired"} {
 				add(mk(svc, kinds, with(i, k), ident(n)))
 			}
 		}
-		// (d) issuance instants, one position at a time (full: over the core expiry assignments)
-		nbfExps := [][]string{allAfter}
-		if level == "full" {
-			nbfExps = c16Product([]string{"none", "before1", "far-after"}, n)
-		}
+		// (d) issuance instants, one position at a time, over the core expiry assignments
+		nbfExps := c16Product([]string{"none", "before1", "far-after"}, n)
 		for _, exps := range nbfExps {
 			for i := 0; i < n; i++ {
 				for _, nb := range []string{"after-vp-nbf", "future"} {
@@ -241,10 +256,7 @@ func (e *c16Env) gridMembers(level string) []c16GReg {
 			}
 		}
 		// (e) the presentation's own instants on their boundaries
-		vpExps := [][]string{allAfter, with(0, "none"), with(n-1, "equal"), with(n-1, "before1")}
-		if level == "full" {
-			vpExps = c16Product([]string{"none", "before1", "equal", "after1"}, n)
-		}
+		vpExps := c16Product([]string{"none", "before1", "equal", "after1"}, n)
 		for _, ve := range []string{"", "1s", "max-1", "max", "max+1"} {
 			for _, vn := range []string{"", "now", "now+1"} {
 				if ve == "" && vn == "" {
@@ -259,10 +271,7 @@ func (e *c16Env) gridMembers(level string) []c16GReg {
 		}
 		// (f) one surplus credential (a kind the definition does not ask for, or a second one of a kind it asks for) at
 		// every position, with its own expiry
-		surplusExp := []string{"none"}
-		if level == "full" {
-			surplusExp = []string{"none", "before1", "far-after"}
-		}
+		surplusExp := []string{"none", "before1", "far-after"}
 		for _, sk := range []string{"OtherCredential", kinds[0]} {
 			for pos := 0; pos <= n; pos++ {
 				for _, se := range surplusExp {
@@ -324,6 +333,16 @@ func c16XRetMembers(level string) []c16XRet {
 		}
 		return out
 	}
+	if level == "leaf" {
+		// what the hand-written retraction kinds of the defect alphabet (iss ∈ {signer, victim, absent, third party} on a
+		// retraction of the listed entry, offered in every state) leave out, one representative per dimension
+		add(c16XRet{"other", "empty", "empty", "victim-live", "own"})
+		add(c16XRet{"other", "signer", "victim", "victim-live", "own"})
+		add(c16XRet{"other", "victim", "signer", "victim-live", "own"})
+		add(c16XRet{"other", "victim", "victim", "victim-superseded", "own"})
+		add(c16XRet{"other", "victim", "victim", "victim-live", "bare"})
+		return out
+	}
 	signers := []string{"other", "stranger"}
 	if level == "state-thorough" {
 		signers = []string{"other", "other2", "stranger", "keyholder"}
@@ -333,7 +352,11 @@ func c16XRetMembers(level string) []c16XRet {
 		for _, n := range c16Names {
 			add(c16XRet{sg, n, n, "victim-live", "own"})
 		}
-		if level == "leaf" && sg != "other" {
+		// kid forms
+		for _, kid := range []string{"bare", "victim", "none"} {
+			add(c16XRet{sg, "victim", "victim", "victim-live", kid})
+		}
+		if level == "state" && sg != "other" {
 			continue
 		}
 		// the other ids
@@ -345,10 +368,6 @@ func c16XRetMembers(level string) []c16XRet {
 		// iss and sub disagree
 		for _, pr := range [][2]string{{"signer", "victim"}, {"victim", "signer"}, {"absent", "victim"}, {"victim", "absent"}} {
 			add(c16XRet{sg, pr[0], pr[1], "victim-live", "own"})
-		}
-		// kid forms
-		for _, kid := range []string{"bare", "victim", "none"} {
-			add(c16XRet{sg, "victim", "victim", "victim-live", kid})
 		}
 		if level == "state-thorough" {
 			for _, iss := range c16Names {
@@ -467,20 +486,34 @@ func (m c16XReg) Label() string {
 
 func c16XRegMembers(level string) []c16XReg {
 	var out []c16XReg
-	signers, kids, subs := []string{"other"}, []string{"own", "victim"}, []string{""}
-	if level == "full" {
-		signers, kids, subs = []string{"other", "other2", "stranger"}, []string{"own", "bare", "victim", "none"}, c16Names
+	seen := map[c16XReg]bool{}
+	add := func(m c16XReg) {
+		if !seen[m] {
+			seen[m] = true
+			out = append(out, m)
+		}
+	}
+	signers, kids, isss := []string{"other"}, []string{"own", "victim"}, []string{"signer", "victim", "absent"}
+	if level != "state" {
+		signers, kids, isss = []string{"other", "other2", "stranger"}, []string{"own", "bare", "victim", "none"}, c16Names
 	}
 	for _, sg := range signers {
 		for _, kid := range kids {
-			for _, iss := range c16Names {
+			for _, iss := range isss {
+				subs := []string{iss}
+				switch {
+				case level == "full":
+					subs = c16Names
+				case level == "full-quick" && iss == "signer":
+					subs = []string{"signer", "victim"}
+				case level == "full-quick" && iss == "victim":
+					subs = []string{"victim", "signer", "absent"}
+				}
 				for _, sub := range subs {
-					if sub == "" {
-						sub = iss
-					}
 					for _, cs := range []string{"signer", "victim"} {
-						for _, jti := range []string{"fresh", "victim-live"} {
-							out = append(out, c16XReg{sg, kid, iss, sub, cs, jti})
+						add(c16XReg{sg, kid, iss, sub, cs, "fresh"})
+						if level != "state" || iss == "victim" {
+							add(c16XReg{sg, kid, iss, sub, cs, "victim-live"})
 						}
 					}
 				}
@@ -536,29 +569,26 @@ func (w *c16World) honestFor(svc string, s int, aud []string) *c16VP {
 			creds = append(creds, e.cred(c16CredOpt{Type: kind, Subject: p}))
 		}
 	}
-	return e.buildVP(c16VPOpt{Signer: p, ExpIn: c16Long, CredsAny: creds, Aud: aud})
+	o := c16VPOpt{Signer: p, ExpIn: c16Long, CredsAny: creds}
+	if aud != nil {
+		o.Aud = aud
+	}
+	var vp *c16VP
+	w.on(svc, func() { vp = e.buildVP(o) }) // default audience: the service it is made for
+	return vp
 }
 
 // offerFamilies offers the deciding subset of every generated family in the current state. Only members the
 // reference predicate REFUSES are offered (admissible ones would change the state; they are events of the owners-*
 // configurations and members of the grid part), so every one is a self-loop transition.
-func (w *c16World) offerFamilies(leaf bool) int {
+func (w *c16World) offerFamilies(leaf bool) int { // leaf: only the "leaf" level of the two list-independent / list-dependent families
 	e := w.e
 	n := 0
 	offer := func(vp *c16VP, label string) {
 		if vp == nil || w.dirty {
 			return
 		}
-		pre, _, _ := w.serverRows()
-		listed := func(signer string) string {
-			for _, r := range pre {
-				if r.Signer == signer {
-					return r.ID
-				}
-			}
-			return ""
-		}
-		if ok, _ := e.ref(vp.Facts, e.now(), listed); ok {
+		if w.admissibleNow(vp) {
 			e.stats["family_members_admissible_not_offered_as_self_loop"]++
 			return
 		}
@@ -597,7 +627,7 @@ func (w *c16World) offerFamilies(leaf bool) int {
 	xlevel := "state"
 	if leaf {
 		xlevel = "leaf"
-	} else if thorough {
+	} else if thorough && len(w.hist) <= 2 {
 		xlevel = "state-thorough"
 	}
 	for _, svc := range w.services() {
@@ -631,7 +661,7 @@ func (w *c16World) offerFamilies(leaf bool) int {
 			if x == y {
 				continue
 			}
-			for _, aud := range [][]string{{x}, {x, y}, {y}} {
+			for _, aud := range [][]string{{x}, {x, y}} {
 				ck := fmt.Sprintf("X|%s|%s|%v|%d", x, y, aud, e.now())
 				vp := e.defectCache[ck]
 				if vp == nil {
@@ -774,7 +804,37 @@ func TestVerifC16Grid(t *testing.T) {
 	sort.Strings(baseNames)
 	grid := e.gridMembers("full")
 	xret := c16XRetMembers("full")
-	xreg := c16XRegMembers("full")
+	xregLevel := "full-quick"
+	if r.Thorough() {
+		xregLevel = "full"
+	}
+	xreg := c16XRegMembers(xregLevel)
+	// quick tier: the full products on one base history each (validity grid: nothing listed; cross-named presentations:
+	// both subjects listed), the shallow-state subsets on the others
+	gridState := map[string]bool{}
+	for _, g := range e.gridMembers("state") {
+		gridState[g.Label()] = true
+	}
+	xretState := map[c16XRet]bool{}
+	for _, m := range c16XRetMembers("state-thorough") {
+		xretState[m] = true
+	}
+	xregState := map[c16XReg]bool{}
+	for _, m := range c16XRegMembers("state") {
+		xregState[m] = true
+	}
+	inTier := func(base, family string, i int) bool {
+		if r.Thorough() {
+			return true
+		}
+		switch family {
+		case "grid":
+			return base == "empty" || gridState[grid[i].Label()]
+		case "xret":
+			return base == "a-b-listed" || xretState[xret[i]]
+		}
+		return base == "a-b-listed" || xregState[xreg[i]]
+	}
 
 	var w *c16World
 	var liar *c16Liar
@@ -825,7 +885,7 @@ func TestVerifC16Grid(t *testing.T) {
 				w.lie(liar, vp, label)
 				transitions++
 			}
-			if !w.dirty {
+			if !w.dirty && ok {
 				w.checkServerState()
 			}
 			// an accepted cross-named member changed the entries the next member is built from: start from the base history
@@ -850,12 +910,30 @@ func TestVerifC16Grid(t *testing.T) {
 		r.Transitions(transitions)
 		return
 	}
+	// vacuity guard: the honest registration for each of the three services (1, 2 and 3 credentials, the third one
+	// self-attested) is accepted by the server, found by the client, and an entry under another subject's id leaves that
+	// subject's entry alone (harness broken if not)
+	for s, svc := range c16GridServices {
+		rebuild("empty")
+		w.on(svc, func() {
+			if !w.submit(w.honestFor(svc, s, nil), "guard: honest registration for "+svc, true) {
+				t.Fatalf("vacuity guard: the honest registration for %s is refused", svc)
+			}
+			w.lie(liar, w.honestFor(svc, s, nil), "guard: honest registration for "+svc)
+			if got := w.searchRaws(); len(got) != 1 {
+				t.Fatalf("vacuity guard: the client does not find the honest registration for %s (%d results)", svc, len(got))
+			}
+		})
+	}
 	idx := 0
 	for _, base := range baseNames {
 		built := false
 		each := func(family string, n int, victims []int) {
 			for i := 0; i < n; i++ {
 				for _, v := range victims {
+					if !inTier(base, family, i) {
+						continue
+					}
 					idx++
 					if !r.Mine(idx) {
 						continue
@@ -879,8 +957,10 @@ func TestVerifC16Grid(t *testing.T) {
 		case "empty", "a-listed", "a-b-listed-2h-later":
 			each("grid", len(grid), []int{0})
 		}
-		each("xret", len(xret), []int{0, 1})
-		each("xreg", len(xreg), []int{0, 1})
+		if base != "empty" && base != "a-b-listed-2h-later" {
+			each("xret", len(xret), []int{0, 1})
+			each("xreg", len(xreg), []int{0, 1})
+		}
 		r.States(1)
 	}
 	r.Transitions(transitions)
